@@ -578,7 +578,7 @@ impl Drop for AWorld {
     }
 }
 
-fn block_on_with<T>(driver: &str, rt: &tokio::runtime::Runtime, f: impl std::future::Future<Output = T>) -> T {
+pub fn block_on_with<T>(driver: &str, rt: &tokio::runtime::Runtime, f: impl std::future::Future<Output = T>) -> T {
     match driver {
         "tokio" => rt.block_on(f),
         "async-std" => async_std::task::block_on(f),
